@@ -61,6 +61,9 @@ def concrete_plan(p, k):
     if p["early"]:
         plan["connect_before_listen"] = True
         plan["listen_delay_ms"] = 30
+    if p["fam"] == "tcp":
+        # phase 0: a timed read on each freshly constructed stream while the peer is silent - it has to RETURN
+        plan["silent_us"] = [20000, 1000, 50000][k % 3]
     if p["tmo"] >= 0 and p["fam"] == "tcp":
         plan["cs"]["read_to_us"] = p["tmo"]
         plan["sc"]["read_to_us"] = p["tmo"]
@@ -186,6 +189,54 @@ def judge_stream(chk, conns, plans):
             if cur is None or pr["ic"] + pr["is"] > cur["ic"] + cur["is"]:
                 frontier[pr["id"]] = pr
     return acc, rejected, frontier
+
+
+def judge_ctors(chk, bindir, conns, plans):
+    """Every stream any constructor handed out: its O_NONBLOCK / FD_CLOEXEC mode must equal the mode of the
+    streams of the plain constructor of the same side and family (StreamCtor.tla).  Records come from a
+    dedicated construct-only run (no data operation that could hang) and from all transfer runs."""
+    wd = os.path.join(chk.work, "ctors")
+    shutil.rmtree(wd, ignore_errors=True)
+    os.makedirs(wd)
+    p = core.run_cmd([os.path.join(bindir, "netops"), "ctors", wd], check=False, timeout=60)
+    shutil.rmtree(wd, ignore_errors=True)
+    if p.returncode != 0:
+        raise core.ToolError("netops ctors failed: " + p.stderr[-1500:])
+    recs = [dict(fam=v["fam"], side=v["side"], ctor=v["ctor"], nonblock=bool(v["nonblock"]), cloexec=bool(v["cloexec"]), conn=-1)
+            for v in (json.loads(l) for l in p.stdout.splitlines() if l.startswith("{")) if v.get("ev") == "ctor"]
+    for k, c in enumerate(conns):
+        if c is None:
+            continue
+        for side in ("c", "s"):
+            for e in c[side]:
+                if e.get("res") == "ok" and e.get("op") in ("connect", "try_connect", "connect_to", "accept", "try_accept", "accept_to"):
+                    recs.append({"fam": plans[k]["fam"], "side": side, "ctor": e["op"], "nonblock": bool(e.get("s_nonblock")),
+                                 "cloexec": bool(e.get("s_cloexec")), "conn": k})
+    path = os.path.join(chk.work, "ctors.ndjson")
+    core.write_ndjson(path, recs)
+    res = core.run_tlc("StreamCtor.tla", "StreamCtor.cfg", workers=1, env={"TRACE": path}, timeout=600, xmx="3g", xss="256m")
+    core.tlc_must_pass(res, "StreamCtor")
+    j = res.printed("JUDGED")
+    if len(j) != 1 or j[0]["n"] != len(recs):
+        raise core.ToolError("StreamCtor did not judge all %d records" % len(recs))
+    chk.add_tlc(res)
+    chk.evaluations += len(recs)
+    chk.traces += len(recs) - len(j[0]["bad"])
+    seen = set()
+    for i in j[0]["bad"]:
+        r = recs[i - 1]
+        key = (r["fam"], r["ctor"])
+        if key in seen:
+            continue
+        seen.add(key)
+        ref = [x for x in recs if x["fam"] == r["fam"] and x["side"] == r["side"] and x["ctor"] == ("connect" if r["side"] == "c" else "accept")]
+        chk.violate({"part": "ctor", "fam": r["fam"], "op": r["ctor"], "why": "stream_mode_differs_from_siblings"},
+                    "%s stream from %s: O_NONBLOCK=%s FD_CLOEXEC=%s, streams from plain %s have %s" % (
+                        r["fam"], r["ctor"], r["nonblock"], r["cloexec"], "connect" if r["side"] == "c" else "accept",
+                        sorted({(x["nonblock"], x["cloexec"]) for x in ref}) or "not been observed"),
+                    {"mode": "ctors", "plan": plans[r["conn"]] if r["conn"] >= 0 else None, "record": r})
+    chk.extra["constructor_modes_judged"] = {"%s/%s" % (f, c): sum(1 for x in recs if x["fam"] == f and x["ctor"] == c)
+                                            for f, c in sorted({(x["fam"], x["ctor"]) for x in recs})}
 
 
 def explain_conn(r, fr):
@@ -418,9 +469,10 @@ def run(tier):
         sig.update({"part": "stream", "fam": plans[r["id"]]["fam"]})
         chk.violate(sig, "connection %d (%s): %s" % (r["id"], json.dumps(plans[r["id"]]["klass"]), what),
                     {"mode": "stream", "plan": plans[r["id"]], "client_log": r["c"][:400], "server_log": r["s"][:400]})
+    judge_ctors(chk, bindir, conns, plans)
     for k, what in incidents.items():
-        chk.violate({"part": "stream", "fam": plans[k]["fam"], "op": "plan", "why": what},
-                    "driver %s while running plan %s" % (what, json.dumps(plans[k]["klass"])), {"mode": "stream", "plan": plans[k], "incident": what})
+        chk.violate({"part": "stream", "fam": plans[k]["fam"], "op": "plan", "why": what, "acc": plans[k]["klass"].get("acc"), "con": plans[k]["klass"].get("con")},
+                    "a call of the code under test did not return (%s: no call completed for 8 s, plan watchdog) while running plan %s" % (what, json.dumps(plans[k]["klass"])), {"mode": "stream", "plan": plans[k], "incident": what})
     nev = 0
     for k, c in enumerate(conns):
         if c is None:
